@@ -494,6 +494,14 @@ func genG6(r rng, n int, t *testing.T) []*Scenario {
 		}
 		sc.Until = h * int64(ln+14)
 		sc.Grid = h / 2
+		// drawn from a stream of the scenario's own (the main stream stays what it was): the refresh of one or two ticks
+		// fails transiently, whatever the health check of that tick said - a healthy result still restarts the count
+		if r2 := (rng{rand.New(rand.NewSource(sc.Seed ^ 0x5eed))}); r2.chance(0.3) {
+			for j := int64(0); j < r2.between(1, 2); j++ {
+				at := r2.between(h, h*int64(ln))
+				sc.Rules = append(sc.Rules, Rule{Inst: "n1", Kind: "update", FromT: at, ToT: at + h, Pre: -1, Post: -1, Fault: "err"})
+			}
+		}
 		out = append(out, sc)
 	}
 	return out
